@@ -5,8 +5,67 @@
 //         PROBE <label> <what> <result>    with what in {block, inner, eig}; result = value | THROWS <what()>
 // Each PROBE line is announced by "TRY <label> <what>" (flushed) so that a sanitizer abort can be attributed.
 // Run under the asan variant: reading StateBlockIndex[2^N] is a heap-buffer-overflow there.
+//
+// Histories on ONE object (C03 for objects that are prepared / computed more than once):
+//   history <h1> <h2> ...        after a model; a history is a word over {p, c} (HamiltonianPart::prepare / compute on one fresh
+//                                HamiltonianPart per block and history) or over {P, C} (Hamiltonian::prepare / compute on one fresh
+//                                Hamiltonian object per history).  Prints HPOLY (as h_ed) once, then after EVERY call
+//     PSTEP <h> <k> <b> <status> <size> <entries of getMatrix(), row-major, re im>     and, if status >= Computed,
+//     PEIG  <h> <k> <b> <eigenvalues>
+//   for part histories (k = number of calls made so far - 1), and for Hamiltonian histories
+//     HSTEP <h> <k> <status of the Hamiltonian>
+//     HPART <h> <k> <b> <status> <size> <entries>,  HEIG <h> <k> <b> <eigenvalues>  (if the part is Computed)
+//     HGROUND <h> <k> <getGroundEnergy()>, HESTATE <h> <k> <getEigenValue(label) for every label>, HEALL <h> <k> <getEigenValues()>
+//                                                                                       (if the Hamiltonian is Computed)
+//   A call that throws prints  PTHROW|HTHROW <h> <k> [<b>] <what()>  and ends that history.
 #include "ed_common.h"
 using namespace Pomerol;
+
+static void dump_matrix(const MatrixType& m) {
+    printf(" %ld", long(m.rows()));
+    for (int r = 0; r < m.rows(); ++r) for (int c = 0; c < m.cols(); ++c) printf(" %s", pv::hexm(m(r, c)).c_str());
+}
+static void dump_eigs(const RealVectorType& e) { for (int k = 0; k < e.size(); ++k) printf(" %s", pv::hexd(e[k]).c_str()); }
+
+static void part_history(pv::ED* ed, const std::string& h, int b) {
+    HamiltonianPart P(*ed->Idx, *ed->Hidx, *ed->S, BlockNumber(b));
+    for (size_t k = 0; k < h.size(); ++k) {
+        try { if (h[k] == 'p') P.prepare(); else P.compute(); }
+        catch (std::exception& e) { printf("PTHROW %s %ld %d %s\n", h.c_str(), long(k), b, e.what()); return; }
+        printf("PSTEP %s %ld %d %u", h.c_str(), long(k), b, P.Status);
+        dump_matrix(P.getMatrix());
+        printf("\n");
+        if (P.Status >= HamiltonianPart::Computed) { printf("PEIG %s %ld %d", h.c_str(), long(k), b); dump_eigs(P.getEigenValues()); printf("\n"); }
+    }
+}
+
+static void ham_history(pv::ED* ed, const std::string& h) {
+    Hamiltonian H(*ed->Idx, *ed->Hidx, *ed->S);
+    int nb = ed->S->NumberOfBlocks();
+    for (size_t k = 0; k < h.size(); ++k) {
+        try { if (h[k] == 'P') H.prepare(ed->comm); else H.compute(ed->comm); }
+        catch (std::exception& e) { printf("HTHROW %s %ld %s\n", h.c_str(), long(k), e.what()); return; }
+        printf("HSTEP %s %ld %u\n", h.c_str(), long(k), H.Status);
+        if (H.Status < Hamiltonian::Prepared) continue;
+        for (int b = 0; b < nb; ++b) {
+            const HamiltonianPart& hp = H.getPart(BlockNumber(b));
+            printf("HPART %s %ld %d %u", h.c_str(), long(k), b, hp.Status);
+            dump_matrix(hp.getMatrix());
+            printf("\n");
+            if (hp.Status >= HamiltonianPart::Computed) { printf("HEIG %s %ld %d", h.c_str(), long(k), b); dump_eigs(hp.getEigenValues()); printf("\n"); }
+        }
+        if (H.Status >= Hamiltonian::Computed) {
+            try {
+                printf("HGROUND %s %ld %s\n", h.c_str(), long(k), pv::hexd(H.getGroundEnergy()).c_str());
+                printf("HESTATE %s %ld", h.c_str(), long(k));
+                for (unsigned long s = 0; s < ed->S->getNumberOfStates(); ++s) printf(" %s", pv::hexd(H.getEigenValue(s)).c_str());
+                printf("\nHEALL %s %ld", h.c_str(), long(k));
+                dump_eigs(H.getEigenValues());
+                printf("\n");
+            } catch (std::exception& e) { printf("\nHTHROW %s %ld %s\n", h.c_str(), long(k), e.what()); return; }
+        }
+    }
+}
 
 int main(int argc, char* argv[]) {
     boost::mpi::environment env(argc, argv);
@@ -41,6 +100,23 @@ int main(int argc, char* argv[]) {
                 for (int k = 0; k < hp.getEigenValues().size(); ++k) printf(" %s", pv::hexd(hp.getEigenValues()[k]).c_str());
                 printf("\n");
             }
+            fflush(stdout);
+        } else if (t[0] == "history" && ed && ed->S && ed->Hidx) {
+            printf("HPOLY %ld", long(std::distance(ed->Hidx->begin(), ed->Hidx->end())));
+            for (Operator::const_iterator it = ed->Hidx->begin(); it != ed->Hidx->end(); ++it) {
+                printf(" %s %ld", pv::hexm(it->second).c_str(), long(it->first.size()));
+                for (size_t k = 0; k < it->first.size(); ++k)
+                    printf(" %d %u", boost::get<0>(it->first[k]) == Operator::creation ? 1 : 0, boost::get<1>(it->first[k]));
+            }
+            printf("\n");
+            int nb = ed->S->NumberOfBlocks();
+            for (size_t k = 1; k < t.size(); ++k) {
+                if (t[k].find_first_not_of("pc") == std::string::npos) { for (int b = 0; b < nb; ++b) part_history(ed, t[k], b); }
+                else if (t[k].find_first_not_of("PC") == std::string::npos) ham_history(ed, t[k]);
+                else printf("BADHISTORY %s\n", t[k].c_str());
+                fflush(stdout);
+            }
+            printf("HISTDONE\n");
             fflush(stdout);
         } else if (t[0] == "probe" && ed) {
             for (size_t k = 1; k < t.size(); ++k) {
